@@ -514,8 +514,10 @@ def run(tier: str, only=None) -> int:
         if tier == "quick":
             b1 = {"ps": 2, "free": 1} if i == 0 else {"ps": 1, "free": 1}
             b2 = {"ps": 0, "pl": 2, "free": 1} if i == 0 else {"ps": 0, "pl": 1, "free": 1}
+        elif A["ithreads"] > 2:
+            b1, b2 = {"ps": 1, "free": 1}, {"ps": 0, "pl": 1, "free": 1}
         else:
-            b1, b2 = {"ps": 3, "free": 2}, {"ps": 1, "pl": 2, "free": 1}
+            b1, b2 = {"ps": 2, "free": 2}, {"ps": 0, "pl": 2, "free": 1}
         harness.run_exploration(rep, PID, name + "/sync", AllocScn, A, b1, max_execs=cap, min_outcomes=mo)
         harness.run_exploration(rep, PID, name + "/stmt", AllocScn, A, b2, stmt=stmt, max_execs=cap)
     # calls failing after their id was allocated, racing with allocations of other threads
